@@ -572,11 +572,11 @@ impl<'a> Gen<'a> {
                   "missing": if self.rng.chance(1,4) { self.f64v() } else { Value::Null }}),
       6 => json!({"type":"date_histogram","field": self.field(&["ts","ts","n","price","tag"]),
                   "calendar_interval": if self.rng.chance(1,2) { json!(*self.rng.pick(&["day","week","month","quarter","year","1d","1M","x",""])) } else { Value::Null },
-                  "fixed_interval": if self.rng.chance(1,2) { json!(*self.rng.pick(&["1d","12h","0s","1ms","-1d","999999999999d","é"," 1d","1"])) } else { Value::Null },
+                  "fixed_interval": if self.rng.chance(1,2) { json!(*self.rng.pick(&["1d","12h","0s","1ms","-1d","999999999999d","é"," 1d","1","0.4ms","0.0001s","1.5d","0.5h","1e-3s","0.000001d","2ms"])) } else { Value::Null },
                   "offset": if self.rng.chance(1,4) { json!(*self.rng.pick(&["1h","-1h","x","+1d"])) } else { Value::Null },
                   "format": Value::Null, "min_doc_count": self.rng.below(2),
-                  "extended_bounds": if self.rng.chance(1,4) { json!({"min": "2020-01-01", "max": *self.rng.pick(&["2020-12-31","1900-01-01","x","9999-12-31"])}) } else { Value::Null },
-                  "hard_bounds": Value::Null,
+                  "extended_bounds": if self.rng.chance(1,4) { json!({"min": *self.rng.pick(&["2020-01-01","2020-01-01T00:00:00Z","0"]), "max": *self.rng.pick(&["2020-12-31","1900-01-01","x","9999-12-31","2020-12-31T00:00:00Z","9999-12-31T00:00:00Z","1000"])}) } else { Value::Null },
+                  "hard_bounds": if self.rng.chance(1,5) { json!({"min": *self.rng.pick(&["2020-01-01T00:00:00Z","0"]), "max": *self.rng.pick(&["2020-01-02T00:00:00Z","2020-12-31T00:00:00Z","1999-01-01T00:00:00Z","50"])}) } else { Value::Null },
                   "missing": Value::Null}),
       7 => json!({"type":"filter","filter": self.filter(2)}),
       8 => json!({"type":"composite","size": self.usz(),
@@ -631,7 +631,58 @@ impl<'a> Gen<'a> {
     v
   }
 
+  /// A well-formed request with one aggregation whose numeric / time parameters sit at the edges
+  /// (tiny, zero-rounding, huge intervals; bounds near and far apart): fully random requests
+  /// mostly die in validation, these reach the bucket-filling loops.
+  fn focused(&mut self) -> Value {
+    let q = if self.rng.chance(1, 2) { json!({"type":"match_all"}) } else { json!(self.word()) };
+    // bounds are RFC 3339 timestamps or epoch milliseconds as strings; a plain date is refused
+    let dates = ["2020-01-01T00:00:00Z", "2020-01-02T00:00:00Z", "2020-01-01T00:00:01Z", "2020-12-31T00:00:00Z",
+                 "1999-01-01T00:00:00Z", "0", "10", "1577836800000", "1577836800050", "2020-01-01"];
+    let agg = match self.rng.below(3) {
+      0 | 1 => {
+        let mut a = json!({"type":"date_histogram","field":"ts","min_doc_count": self.rng.below(2)});
+        if self.rng.chance(1, 4) {
+          a["calendar_interval"] = json!(*self.rng.pick(&["day","week","month","quarter","year"]));
+        } else {
+          a["fixed_interval"] = json!(*self.rng.pick(&["1d","12h","1ms","2ms","0.4ms","0.0001s","0.5h","0.000001d","0.9ms","0","0s","30s","1000w","0.5ms","1.5ms"]));
+        }
+        if self.rng.chance(2, 3) {
+          a["extended_bounds"] = json!({"min": *self.rng.pick(&dates), "max": *self.rng.pick(&dates)});
+        }
+        if self.rng.chance(1, 3) {
+          a["hard_bounds"] = json!({"min": *self.rng.pick(&dates), "max": *self.rng.pick(&dates)});
+        }
+        if self.rng.chance(1, 5) {
+          a["offset"] = json!(*self.rng.pick(&["1h","-1h","0.4ms","30s"]));
+        }
+        a
+      }
+      _ => {
+        let mut a = json!({"type":"histogram","field": *self.rng.pick(&["n","price"]),
+                           "interval": *self.rng.pick(&[1e-9, 0.001, 0.5, 1.0, 2.5, 1e9, 1e300]),
+                           "min_doc_count": self.rng.below(2)});
+        let edges = [-1e18, -1e6, -10.0, 0.0, 0.25, 10.0, 1e6, 1e18];
+        if self.rng.chance(2, 3) {
+          a["extended_bounds"] = json!({"min": *self.rng.pick(&edges), "max": *self.rng.pick(&edges)});
+        }
+        if self.rng.chance(1, 3) {
+          a["hard_bounds"] = json!({"min": *self.rng.pick(&edges), "max": *self.rng.pick(&edges)});
+        }
+        if self.rng.chance(1, 4) {
+          a["offset"] = json!(*self.rng.pick(&[0.5, -0.5, 1e-9, 1e9]));
+        }
+        a
+      }
+    };
+    self.bump("focused_edge_aggregation");
+    json!({"query": q, "limit": 1 + self.rng.below(3), "aggs": {"f": agg}})
+  }
+
   fn request(&mut self) -> Value {
+    if self.rng.chance(1, 12) {
+      return self.focused();
+    }
     let depth = match self.rng.below(20) {
       0 => 6 + self.rng.below(20) as u32,
       1..=8 => 0,
